@@ -101,6 +101,26 @@ for k, v in enumerate(data["values"]):
             fp.seek(0)
             return (raw if isinstance(raw, str) else raw.decode("utf-8"), fast_json.load(fp))
         out[key].append(attempt(roundtrip))
+# ... and on text handles that are not UTF-8 (what open(path, "w") gives on some platforms): what reading the file back
+# through a handle configured the same way gives, and the bytes that ended up in the file
+HANDLES = (("cp1252", "strict"), ("latin-1", "strict"), ("ascii", "replace"), ("ascii", "backslashreplace"), ("utf-16", "strict"))
+out["file_handles"] = []
+for k, v in enumerate(data["values"]):
+    if k % 7:
+        out["file_handles"].append(None)
+        continue
+    rec = {}
+    for enc, err in HANDLES:
+        def handle_rt(enc=enc, err=err, v=v):
+            buf = io.BytesIO()
+            fp = io.TextIOWrapper(buf, encoding=enc, errors=err, newline="")
+            fast_json.dump(v, fp)
+            fp.flush()
+            raw = buf.getvalue()
+            back = io.TextIOWrapper(io.BytesIO(raw), encoding=enc, errors=err, newline="")
+            return raw, fast_json.load(back)
+        rec[f"{enc}/{err}"] = attempt(handle_rt)
+    out["file_handles"].append(rec)
 if data.get("foreign") is not None:
     for s in data["foreign"]:
         out["foreign_dec"].append(attempt(fast_json.loads, s) if s is not None else ("err", "no encoding"))
